@@ -657,7 +657,8 @@ func (env *SEnv) binary(e *SExpr) *SVal {
 		}
 		k = env.coerceGo(k, mt.Key())
 		md, _, _, _ := env.u.mapComps(mt)
-		return &SVal{T: Select(Select(env.u.comp(env.cur, md), m.T), k.T), Go: boolT}
+		// a nil map has no keys
+		return &SVal{T: And(Neq(m.T, IntLit(0)), Select(Select(env.u.comp(env.cur, md), m.T), k.T)), Go: boolT}
 	}
 	env.fail("unknown operator %s", e.Op)
 	return nil
